@@ -233,8 +233,11 @@ func (c *c07state) intercept(from, to string, e *wire.Envelope) (*wire.Envelope,
 	cr.armed = false
 	c.mu.Unlock()
 	p := c.p
-	H := p.n[1]
-	hist := H.Rec.EnabledOf(cr.ch)
+	// The predecessor is the sender's own current state: A is inside its
+	// Update call, whose base both sides have signed. (H's Enabled stream may
+	// lag by one entry at this instant: H records the enable only after its
+	// acceptance message has been delivered.)
+	hist := p.n[0].Rec.EnabledOf(cr.ch)
 	if len(hist) == 0 {
 		return e, true
 	}
@@ -503,6 +506,16 @@ func (c *c07state) settle(step int) bool {
 		return true
 	}
 	H := p.n[1]
+	// H must have held the predecessor when it handled the message
+	held := false
+	benc := gen.EncodeState(cr.before)
+	for _, e := range H.Rec.EnabledOf(cr.ch) {
+		held = held || bytes.Equal(e.Enc, benc)
+	}
+	if !held {
+		s.Count("probe.predecessor_not_held_by_H", 1)
+		return false
+	}
 	// the funded (initial state) or settled (final state) channel as H holds it
 	if cr.subID != (channel.ID{}) {
 		if sh := H.Rec.EnabledOf(cr.subID); len(sh) > 0 {
